@@ -65,11 +65,13 @@ INT, BOOL, STR, FLOAT = ("int",), ("bool",), ("str",), ("float",)
 
 SCALAR_CLASSES = {"int": int, "bool": bool, "str": str, "float": float, "None": type(None), "object": object}
 ITER_CERTAIN = {"List": list, "Set": set, "FrozenSet": frozenset, "TupleVar": tuple}
-ITER_UNCERTAIN = {"Deque": collections.deque}           # not a builtin; the tutorial says "builtin iterable"
+# not builtins; the tutorial says "builtin iterable": creation is unspecified, what a produced converter places is not
+ITER_UNCERTAIN = {"Deque": collections.deque, "Sequence": collections.abc.Sequence, "Iterable": collections.abc.Iterable}
 ITER_IMPL = {**ITER_CERTAIN, **ITER_UNCERTAIN}
 DICT_CERTAIN = {"Dict": dict}
 DICT_UNCERTAIN = {"DefaultDict": collections.defaultdict, "OrderedDict": collections.OrderedDict,
-                  "Counter": collections.Counter}
+                  "Counter": collections.Counter, "Mapping": collections.abc.Mapping,
+                  "MutableMapping": collections.abc.MutableMapping}
 DICT_IMPL = {**DICT_CERTAIN, **DICT_UNCERTAIN}
 WRAPPERS = ("Annotated", "NewType")
 
@@ -748,6 +750,14 @@ def to_hint(ts, classes, extra=None):  # noqa: C901, PLR0911, PLR0912
         return typing.Tuple[sub(ts[1]), ...]
     if head == "Deque":
         return typing.Deque[sub(ts[1])]
+    if head == "Sequence":
+        return typing.Sequence[sub(ts[1])]
+    if head == "Iterable":
+        return typing.Iterable[sub(ts[1])]
+    if head == "Mapping":
+        return typing.Mapping[sub(ts[1]), sub(ts[2])]
+    if head == "MutableMapping":
+        return typing.MutableMapping[sub(ts[1]), sub(ts[2])]
     if head == "Tuple":
         return typing.Tuple[tuple(sub(x) for x in ts[1:])]
     if head == "Dict":
